@@ -34,7 +34,7 @@ def slow1 (P : Prim K) (dn nom up a : K) : K :=
   if (0 : K) < a then P.pow (up / nom) a else P.pow (dn / nom) (-a)
 
 def fast1 (P : Prim K) (dn nom up a : K) : K :=
-  P.pow (sel (decide ((0 : K) < a)) (up / nom) (dn / nom)) (absK a)
+  P.pow (sel (decide ((0 : K) < a)) (up / nom) (dn / nom)) (sel (decide ((0 : K) < a)) a (-a))
 
 /-! ## code 2 — quadratic interpolation, linear extrapolation (additive) -/
 
